@@ -1,2 +1,69 @@
-(* C16 - Type-annotation validation agrees with subtype compatibility (statements only). *)
-From Verif Require Import Base.Prelude Model.Ty Model.TyPipe Model.TySpec.
+(* C16 - Type-annotation validation agrees with subtype compatibility.
+   Only statements here; every proof is `exact <lemma>` into Proofs/.
+   compat = model of pipefunc.typing.is_type_compatible (Model/Ty.v, after the repairs listed there),
+   sub    = declarative relation from the property text (Model/Ty.v),
+   subb   = its decision procedure, the oracle of the correspondence check (Model/TySpec.v). *)
+From Verif Require Import Base.Prelude Model.Ty Model.TyPipe Model.TySpec Proofs.TyFacts.
+
+(* --- the algebraic laws named by the property, for ALL annotations of the grammar --- *)
+Theorem C16_compat_reflexive : forall a, compat a a = true.
+Proof. exact compat_reflexive. Qed.
+Print Assumptions C16_compat_reflexive.
+
+Theorem C16_compat_any : forall a, compat a TAny = true.
+Proof. exact compat_any. Qed.
+Print Assumptions C16_compat_any.
+
+Theorem C16_compat_noannotation : forall a, compat a TNoAnn = true /\ compat TNoAnn a = true.
+Proof. exact compat_noannotation. Qed.
+Print Assumptions C16_compat_noannotation.
+
+(* --- the oracle used by spec_ok decides the declarative relation --- *)
+Theorem C16_subb_iff_sub : forall a b, subb a b = true <-> sub a b.
+Proof. exact subb_iff_sub. Qed.
+Print Assumptions C16_subb_iff_sub.
+
+(* --- main theorem.  Full statement:
+         forall a b, wf a = true -> wf b = true -> (compat a b = true <-> sub a b)
+       (wf = the normal form typing builds: non-empty unions / argument lists, no directly nested Annotated).
+       It is FALSE for the code (C16_compat_iff_sub_refuted: a TypeVar source is accepted whatever its bound,
+       known finding typevar-source-accepted), and proved for sources without TypeVar. --- *)
+Theorem C16_compat_iff_sub_partial : forall a b,
+  wf a = true -> wf b = true -> notv a = true -> (compat a b = true <-> sub a b).
+Proof. exact compat_iff_sub_partial. Qed.
+Print Assumptions C16_compat_iff_sub_partial.
+
+Example C16_partial_nonvacuous :
+  let a := TUnion [TAnnot (TGen OTuple [TCls CBool; TArray (TCls CInt)]) [MStr (s "m")]; TCls CNone] in
+  let b := TUnion [TGen OTuple [TCls CInt; TArray (TUnion [TCls CInt; TCls CStr])]; TCls CNone;
+                   TVar (s "T") (Some (TCls CStr)) []] in
+  wf a = true /\ wf b = true /\ notv a = true /\ compat a b = true /\ compat b a = false.
+Proof. vm_compute. repeat split. Qed.
+
+Theorem C16_compat_iff_sub_refuted :
+  exists a b, wf a = true /\ wf b = true /\ compat a b = true /\ ~ sub a b.
+Proof. exact compat_iff_sub_refuted. Qed.
+Print Assumptions C16_compat_iff_sub_refuted.
+
+(* as equality of the two functions: what the correspondence check evaluates on every case *)
+Theorem C16_compat_eq_subb : forall a b, wf a = true -> wf b = true -> notv a = true -> compat a b = subb a b.
+Proof. exact compat_eq_subb. Qed.
+Print Assumptions C16_compat_eq_subb.
+
+(* --- unions: a union source needs all members accepted, a union target needs one --- *)
+Theorem C16_compat_union_src : forall l b,
+  wf (TUnion l) = true -> wf b = true -> notv (TUnion l) = true ->
+  compat (TUnion l) b = forallb (fun x => compat x b) l.
+Proof. exact compat_union_src. Qed.
+Print Assumptions C16_compat_union_src.
+
+Theorem C16_compat_union_tgt : forall a l,
+  wf a = true -> wf (TUnion l) = true -> notv a = true -> splits a = false ->
+  compat a (TUnion l) = existsb (fun t => compat a t) l.
+Proof. exact compat_union_tgt. Qed.
+Print Assumptions C16_compat_union_tgt.
+
+Theorem C16_compat_union_tgt_intro : forall a t l,
+  wf a = true -> wf (TUnion l) = true -> notv a = true -> In t l -> compat a t = true -> compat a (TUnion l) = true.
+Proof. exact compat_union_tgt_intro. Qed.
+Print Assumptions C16_compat_union_tgt_intro.
